@@ -1034,6 +1034,55 @@ func pairCase(p Pair) hx.Case {
 	return c
 }
 
+// Concurrent: the files are read one after the other, then all at once from goroutines of their own (ply.ReadMesh goes
+// through one package-level reader value); every concurrent result must be the sequential one.
+type Concurrent struct {
+	Specs  []Spec `json:"concurrent"`
+	Rounds int    `json:"rounds"`
+}
+
+func concurrentCase(cc Concurrent) hx.Case {
+	c := hx.Case{Kind: "concurrent", Desc: cc, Nontriv: true, Coq: "CRaw {| pf_header := []; pf_body := BodyBin [] |} ODeclared"}
+	datas := make([][]byte, len(cc.Specs))
+	want := make([]string, len(cc.Specs))
+	h := sha1.New()
+	render1 := func(o plyx.Outcome) string {
+		if o.Class != "mesh" {
+			return o.Class
+		}
+		m, _ := plyx.MeshCoq(o.Mesh)
+		return m
+	}
+	for i, s := range cc.Specs {
+		normalise(&s)
+		datas[i] = render(s)
+		h.Write(datas[i])
+		want[i] = render1(plyx.SafeRead(datas[i]))
+	}
+	c.Key = "concurrent:" + hex.EncodeToString(h.Sum(nil))
+	for round := 0; round < cc.Rounds && c.GoFail == ""; round++ {
+		got := make([]string, len(datas))
+		done := make(chan int, len(datas))
+		for i := range datas {
+			go func(i int) {
+				got[i] = render1(plyx.SafeRead(datas[i]))
+				done <- i
+			}(i)
+		}
+		for range datas {
+			<-done
+		}
+		for i := range datas {
+			if got[i] != want[i] {
+				c.GoFail = fmt.Sprintf("file %d of %d loads differently when the files are read concurrently (round %d)", i, len(datas), round)
+				c.FailKey = "ply:read-concurrent"
+				break
+			}
+		}
+	}
+	return c
+}
+
 // headerCase: the header bytes as given to polyform and the fields per line found by the independent tokenizer; the
 // Coq model of readLine + strings.Fields (Formats/PlyText.v) must find the same.
 func headerCase(s Spec) (hx.Case, bool) {
@@ -1137,6 +1186,12 @@ func systematic() []Spec {
 				all.Verts = append(all.Verts, []uint64{255 - b, uint64(math.Float32bits(float32(b))), b, b, (b * 7) % 256, (b * 13) % 256})
 			}
 			out = append(out, all)
+			// ... and through the uchar Vector4 reader (colour with alpha)
+			rgba := sysSpec(f, []VProp{vp("uchar", "alpha"), vp("uchar", "blue"), vp("float", "x"), vp("uchar", "red"), vp("uchar", "green")}, r, 0)
+			for b := uint64(0); b < 256; b++ {
+				rgba.Verts = append(rgba.Verts, []uint64{b, 255 - b, uint64(math.Float32bits(float32(b))), (b * 7) % 256, (b * 13) % 256})
+			}
+			out = append(out, rgba)
 		}
 		// S2
 		xyz := []VProp{vp("float", "x"), vp("float", "y"), vp("float", "z")}
@@ -1348,12 +1403,14 @@ func main() {
 	run := hx.ParseFlags("C08", "Check.C08")
 	run.ShardMax = 100 // a shard of 250 files needs 1.2 GB in coqc; 16 run in parallel
 	tmpDir = run.OutDir
+	otherPaths = true // replayed and corpus files go through every read path
 	for _, in := range run.Inputs() {
 		var probe struct {
 			Big   bool   `json:"big"`
 			Mode  string `json:"mode"`
 			First *Spec  `json:"first"`
 			Raw   string `json:"raw"`
+			Conc  []Spec `json:"concurrent"`
 		}
 		json.Unmarshal(in.Raw, &probe)
 		switch {
@@ -1361,6 +1418,11 @@ func main() {
 			var d BigDesc
 			if err := json.Unmarshal(in.Raw, &d); err == nil && len(d.VProps) > 0 {
 				run.Add(bigCase(d, in.Kind))
+			}
+		case len(probe.Conc) > 0:
+			var cc Concurrent
+			if err := json.Unmarshal(in.Raw, &cc); err == nil {
+				run.Add(concurrentCase(cc))
 			}
 		case probe.Raw != "":
 			run.Add(rawCase(RawDesc{Raw: probe.Raw}, in.Kind))
@@ -1397,6 +1459,7 @@ func main() {
 		small = append(small, specCase(s, "systematic"))
 		run.Count("systematic:corners-vs-vertices")
 	}
+	small = append(small, concurrentCase(Concurrent{Specs: append(corner(), coinciding()...), Rounds: 3}))
 	if longLines {
 		for _, s := range longLineSpecs() {
 			c := specCase(s, "longline")
